@@ -78,6 +78,9 @@ def main():
     ap.add_argument('--only')
     ap.add_argument('--tier', default='quick')
     ap.add_argument('--seeds', type=int, default=1)
+    ap.add_argument('--save-regressions', action='store_true',
+                    help='keep the failing input found against each reverse patch of a repaired defect '
+                         '(mutants/<ID>/revert-fix-*.patch) as regressions/<ID>-<name>.json')
     args = ap.parse_args()
     pids = [p.upper() for p in args.ids] or sorted(os.listdir(os.path.join(VERIF, 'mutants')))
     # evidence / replays written by mutant runs must not pollute the committed ones
@@ -100,6 +103,12 @@ def main():
                     code, out = run_check(pid, copy, args.tier, seed)
                     if code == 1 and 'VIOLATION property=' in out:
                         caught = True
+                        if args.save_regressions and name.startswith('revert-fix-'):
+                            os.makedirs(os.path.join(VERIF, 'regressions'), exist_ok=True)
+                            for k, ln in enumerate(l for l in out.splitlines() if l.startswith('VIOLATION property=')):
+                                rp = ln.split('replay=', 1)[1].strip()
+                                dst = os.path.join(VERIF, 'regressions', f'{pid}-{name[:-6]}-{k}.json')
+                                shutil.copy(os.path.join(VERIF, rp), dst)
                         break
                     if code == 2:
                         break
